@@ -24,6 +24,12 @@
 #include "tdigest.hpp"
 #include "count_min.hpp"
 #include "density_sketch.hpp"
+#include "cpc_union.hpp"
+#include "theta_union.hpp"
+#include "theta_intersection.hpp"
+#include "theta_a_not_b.hpp"
+#include "tuple_union.hpp"
+#include "tuple_intersection.hpp"
 #undef private
 #undef protected
 
@@ -47,7 +53,7 @@ struct Obj {
   virtual void query() = 0;                       // a read-only query that may build caches
   virtual uint64_t digest() const = 0;
   virtual Obj* roundtrip() const = 0;             // deserialize(serialize(*this))
-  virtual Obj* result() const = 0;                // union.get_result()
+  virtual Obj* result(long arg) const = 0;        // union.get_result(arg)
 };
 
 inline uint64_t fnv(const uint8_t* p, size_t n, uint64_t h = 0xcbf29ce484222325ULL) {
@@ -89,7 +95,7 @@ template<typename D, typename S> struct ObjBase : Obj {
   void trim() override { throw unsupported(); }
   void query() override {}
   Obj* roundtrip() const override { throw unsupported(); }
-  Obj* result() const override { throw unsupported(); }
+  Obj* result(long) const override { throw unsupported(); }
 };
 
 // ---- 0: KLL ----------------------------------------------------------------------------------
@@ -306,7 +312,7 @@ struct VouObj : ObjBase<VouObj, vou_t> {
   void reset() override { s.reset(); }
   long retained() const override { return 0; }
   uint64_t digest() const override { auto b = s.serialize(0, ItemSerde()); return fnv(b.data(), b.size()); }
-  Obj* result() const override { return new VoObj(s.get_result()); }
+  Obj* result(long) const override { return new VoObj(s.get_result()); }
 };
 
 // ---- 12: t-digest --------------------------------------------------------------------------------------------------
@@ -360,6 +366,96 @@ struct DsObj : ObjBase<DsObj, ds_t> {
   uint64_t digest() const override { auto b = s.serialize(); return fnv(b.data(), b.size()); }
 };
 
+
+// ---- set-operation objects (hand-managed polymorphic or table state of their own) -----------------------------------------
+typedef hll_union_alloc<talloc<uint8_t>> hu_t;
+struct HuObj : ObjBase<HuObj, hu_t> {
+  using ObjBase::ObjBase;
+  int kind() const override { return 15; }
+  void update(int64_t v, int64_t, bool, Out&) override { s.update((uint64_t)v); }
+  void merge(const Obj& o) override { const HllObj* p = dynamic_cast<const HllObj*>(&o); if (!p) throw std::invalid_argument("kind mismatch"); s.update(p->s); }
+  void merge_move(Obj& o) override { HllObj* p = dynamic_cast<HllObj*>(&o); if (!p) throw std::invalid_argument("kind mismatch"); s.update(std::move(p->s)); }
+  void reset() override { s.reset(); }
+  long retained() const override { return (long)s.is_empty(); }
+  void query() override { (void)s.get_estimate(); (void)s.get_composite_estimate(); }
+  uint64_t digest() const override { auto r = s.get_result(HLL_8); auto b = r.serialize_compact(); return fnv(b.data(), b.size()); }
+  Obj* result(long t) const override { return new HllObj(s.get_result((target_hll_type)(t < 0 || t > 2 ? 0 : t))); }
+};
+
+typedef cpc_union_alloc<talloc<uint8_t>> cu_t;
+struct CuObj : ObjBase<CuObj, cu_t> {
+  using ObjBase::ObjBase;
+  int kind() const override { return 16; }
+  void update(int64_t, int64_t, bool, Out&) override { throw unsupported(); }
+  void merge(const Obj& o) override { const CpcObj* p = dynamic_cast<const CpcObj*>(&o); if (!p) throw std::invalid_argument("kind mismatch"); s.update(p->s); }
+  void merge_move(Obj& o) override { CpcObj* p = dynamic_cast<CpcObj*>(&o); if (!p) throw std::invalid_argument("kind mismatch"); s.update(std::move(p->s)); }
+  long retained() const override { return 0; }
+  uint64_t digest() const override { auto r = s.get_result(); auto b = r.serialize(); return fnv(b.data(), b.size()); }
+  Obj* result(long) const override { return new CpcObj(s.get_result()); }
+};
+
+typedef theta_union_alloc<talloc<uint64_t>> tu_t;
+struct TuObj : ObjBase<TuObj, tu_t> {
+  using ObjBase::ObjBase;
+  int kind() const override { return 17; }
+  void update(int64_t, int64_t, bool, Out&) override { throw unsupported(); }
+  void merge(const Obj& o) override { const ThObj* p = dynamic_cast<const ThObj*>(&o); if (!p) throw std::invalid_argument("kind mismatch"); s.update(p->s); }
+  void merge_move(Obj& o) override { ThObj* p = dynamic_cast<ThObj*>(&o); if (!p) throw std::invalid_argument("kind mismatch"); s.update(std::move(p->s)); }
+  void reset() override { s.reset(); }
+  long retained() const override { return 0; }
+  uint64_t digest() const override { auto r = s.get_result(true); auto b = r.serialize(); auto r2 = s.get_result(false); return fnv(b.data(), b.size()) ^ (uint64_t)r2.get_num_retained(); }
+};
+
+typedef theta_intersection_alloc<talloc<uint64_t>> ti_t;
+struct TiObj : ObjBase<TiObj, ti_t> {
+  using ObjBase::ObjBase;
+  int kind() const override { return 18; }
+  void update(int64_t, int64_t, bool, Out&) override { throw unsupported(); }
+  void merge(const Obj& o) override { const ThObj* p = dynamic_cast<const ThObj*>(&o); if (!p) throw std::invalid_argument("kind mismatch"); s.update(p->s); }
+  void merge_move(Obj& o) override { ThObj* p = dynamic_cast<ThObj*>(&o); if (!p) throw std::invalid_argument("kind mismatch"); s.update(std::move(p->s)); }
+  long retained() const override { return (long)s.has_result(); }
+  uint64_t digest() const override { if (!s.has_result()) return 0; auto r = s.get_result(true); auto b = r.serialize(); return fnv(b.data(), b.size()); }
+};
+
+// A-not-B is stateless: merge(o) computes o \ o-with-half-the-items-removed through the operator and keeps the digest
+typedef theta_a_not_b_alloc<talloc<uint64_t>> ta_t;
+struct TaObj : ObjBase<TaObj, ta_t> {
+  using ObjBase::ObjBase;
+  uint64_t last = 0;
+  int kind() const override { return 19; }
+  void update(int64_t, int64_t, bool, Out&) override { throw unsupported(); }
+  void merge(const Obj& o) override { const ThObj* p = dynamic_cast<const ThObj*>(&o); if (!p) throw std::invalid_argument("kind mismatch");
+    auto c = p->s.compact(false); auto r = s.compute(p->s, c, true); auto r2 = s.compute(c, p->s, false); auto b = r.serialize(); last = fnv(b.data(), b.size()) ^ r2.get_num_retained(); }
+  void merge_move(Obj& o) override { ThObj* p = dynamic_cast<ThObj*>(&o); if (!p) throw std::invalid_argument("kind mismatch");
+    auto c = p->s.compact(true); auto cc = p->s.compact(false); auto r = s.compute(std::move(cc), c, true); auto b = r.serialize(); last = fnv(b.data(), b.size()); }
+  long retained() const override { return 0; }
+  uint64_t digest() const override { return 0; }   // the operator itself is stateless
+};
+
+struct TupUnionPolicy { void operator()(Item& a, const Item& b) const { a += b; } };
+typedef tuple_union<Item, TupUnionPolicy, talloc<Item>> tpu_t;
+struct TpuObj : ObjBase<TpuObj, tpu_t> {
+  using ObjBase::ObjBase;
+  int kind() const override { return 21; }
+  void update(int64_t, int64_t, bool, Out&) override { throw unsupported(); }
+  void merge(const Obj& o) override { const TupObj* p = dynamic_cast<const TupObj*>(&o); if (!p) throw std::invalid_argument("kind mismatch"); s.update(p->s); }
+  void merge_move(Obj& o) override { TupObj* p = dynamic_cast<TupObj*>(&o); if (!p) throw std::invalid_argument("kind mismatch"); s.update(std::move(p->s)); }
+  void reset() override { s.reset(); }
+  long retained() const override { return 0; }
+  uint64_t digest() const override { auto r = s.get_result(true); auto b = r.serialize(0, ItemSerde()); return fnv(b.data(), b.size()); }
+};
+
+typedef tuple_intersection<Item, TupUnionPolicy, talloc<Item>> tpi_t;
+struct TpiObj : ObjBase<TpiObj, tpi_t> {
+  using ObjBase::ObjBase;
+  int kind() const override { return 22; }
+  void update(int64_t, int64_t, bool, Out&) override { throw unsupported(); }
+  void merge(const Obj& o) override { const TupObj* p = dynamic_cast<const TupObj*>(&o); if (!p) throw std::invalid_argument("kind mismatch"); s.update(p->s); }
+  void merge_move(Obj& o) override { TupObj* p = dynamic_cast<TupObj*>(&o); if (!p) throw std::invalid_argument("kind mismatch"); s.update(std::move(p->s)); }
+  long retained() const override { return (long)s.has_result(); }
+  uint64_t digest() const override { if (!s.has_result()) return 0; auto r = s.get_result(true); auto b = r.serialize(0, ItemSerde()); return fnv(b.data(), b.size()); }
+};
+
 // factory: kind, two parameters, arena
 inline Obj* make(int kind, long p1, long p2, int arena) {
   // parameters that do not fit the constructor argument types are refused here (no silent truncation);
@@ -368,7 +464,7 @@ inline Obj* make(int kind, long p1, long p2, int arena) {
   if (p1 < 0 || p2 < 0 || p1 > 65535 || p2 > 255 || (kind != 0 && kind != 3 && kind != 4 && kind != 5 && kind != 6 && kind < 11 && p1 > 255))
     throw std::invalid_argument("parameter out of range");
   if (kind == 2 && (p1 > 12 || p2 > 12)) throw std::invalid_argument("parameter out of range");
-  if ((kind == 1 || kind == 9 || kind == 4) && p2 > 3) throw std::invalid_argument("parameter out of range");
+  if ((kind == 1 || kind == 9 || kind == 4 || kind == 17 || kind == 21) && p2 > 3) throw std::invalid_argument("parameter out of range");
   if (kind == 7 && p2 > 2) throw std::invalid_argument("parameter out of range");
   if (kind == 3 && (p1 < 4 || p1 > 255 || (p1 & 1) || p2 > 1)) throw std::invalid_argument("parameter out of range");   // req rounds k silently
   if (kind == 4 && p1 < 1) throw std::invalid_argument("parameter out of range");
@@ -393,6 +489,13 @@ inline Obj* make(int kind, long p1, long p2, int arena) {
   case 12: return new TdObj((uint16_t)p1, talloc<double>(arena));
   case 13: return new CmObj((uint8_t)(p2 ? p2 : 3), (uint32_t)p1, 9001, talloc<uint64_t>(arena));
   case 14: return new DsObj((uint16_t)p1, (uint32_t)(p2 ? p2 : 2), AnyKernel(), talloc<double>(arena));
+  case 15: return new HuObj((uint8_t)p1, talloc<uint8_t>(arena));
+  case 16: return new CuObj((uint8_t)p1, DEFAULT_SEED, talloc<uint8_t>(arena));
+  case 17: { tu_t::builder b{talloc<uint64_t>(arena)}; b.set_lg_k((uint8_t)p1); b.set_resize_factor((tu_t::resize_factor)p2); return new TuObj(b.build()); }
+  case 18: return new TiObj(DEFAULT_SEED, talloc<uint64_t>(arena));
+  case 19: return new TaObj(DEFAULT_SEED, talloc<uint64_t>(arena));
+  case 21: { tpu_t::builder b{TupUnionPolicy(), talloc<Item>(arena)}; b.set_lg_k((uint8_t)p1); b.set_resize_factor((tpu_t::resize_factor)p2); return new TpuObj(b.build()); }
+  case 22: return new TpiObj(DEFAULT_SEED, TupUnionPolicy(), talloc<Item>(arena));
   default: throw std::invalid_argument("unknown kind");
   }
 }
